@@ -509,12 +509,12 @@ SignalHandler::SignalHandler(BasicSolver &s)
   solver_.set_interrupter(this);
   signal_message_ptr_ = message_.c_str();
   signal_message_size_ = static_cast<unsigned>(message_.size());
+  stop_ = 0;
   MP_VERIF_SIGNAL_POINT("ctor:0");
   std::signal(SIGINT, HandleSigInt);
   MP_VERIF_SIGNAL_POINT("ctor:1");
   std::signal(SIGTERM, HandleSigInt);
   MP_VERIF_SIGNAL_POINT("ctor:2");
-  stop_ = 0;
   MP_VERIF_SIGNAL_POINT("ctor:3");
 }
 
